@@ -183,3 +183,57 @@ func VC_C13_cause_chain() {
 	verifAssert(erro.Cause(plain) == nil, "C13.cause.plain-error-has-no-cause")
 	verifReached("C13.cause")
 }
+
+func vC13One(i int) int { return i }
+
+// VC_C13_result_rows: ill-formed result rows (too many values, too few, a value of the
+// wrong size; in the first or a later row of Returns, or in a plain Return) given for
+// a function or a method are rejected and leave the target un-mocked - whichever row is
+// the ill-formed one.
+func VC_C13_result_rows() {
+	vEnv()
+	vPristine(vC13F)
+	vPristine(vC13G)
+	vPristine(vC13One)
+	get := interface{}((*vC13T).Get)
+	vPristine(get)
+	b := Create()
+	onMethod := verifBool("method")
+	var bad interface{}
+	switch verifChoice("defect", 3) {
+	case 0:
+		bad = []interface{}{2, 3} // too many values
+	case 1:
+		bad = []interface{}{} // too few
+	default:
+		bad = int8(2) // wrong size
+	}
+	attempt := func() {
+		switch verifChoice("api", 3) {
+		case 0: // a later row of Returns
+			if onMethod {
+				b.Struct(&vC13T{}).Method("Get").Returns(1, bad)
+			} else {
+				b.Func(vC13One).Returns(1, bad)
+			}
+		case 1: // the first row of Returns
+			if onMethod {
+				b.Struct(&vC13T{}).Method("Get").Returns(bad, 1)
+			} else {
+				b.Func(vC13One).Returns(bad, 1)
+			}
+		default: // Return with too many values (When(c).Return(...) is two calls: the valid
+			// When already mocks the target, so nothing is claimed about the rejected Return)
+			if onMethod {
+				b.Struct(&vC13T{}).Method("Get").Return(1, 2)
+			} else {
+				b.Func(vC13One).Return(1, 2)
+			}
+		}
+	}
+	vRejected(attempt, "C13.rows")
+	verifAssert(!vDiverted(vC13One) && !vDiverted(get), "C13.rows.target-not-mocked")
+	b.Reset()
+	verifAssert(!vDiverted(vC13One) && !vDiverted(get), "C13.rows.reset-leaves-untouched")
+	verifReached("C13.rows")
+}
